@@ -76,7 +76,7 @@ Proof.
   apply bind_Ok in H. destruct H as [dfp [Hdfp H]].
   apply bind_Ok in H. destruct H as [b [Hb H]].
   apply bind_Ok in H. destruct H as [rv [Hrv H]].
-  apply bind_Ok in H. destruct H as [[text i2'] [Htds H]].
+  apply bind_Ok in H. destruct H as [text [Htds H]].
   apply bind_Ok in H. destruct H as [rets [Hrets H]].
   destruct fname as [nm|]; [|discriminate].
   inversion H. subst. exists text, b, rv, (Some n), ftype. repeat split; assumption.
@@ -161,11 +161,11 @@ Proof.
   apply bind_Ok in H. destruct H as [spliced [Hsp H]].
   apply bind_Ok in H. destruct H as [ret [Hret H]].
   destruct fname as [nm|]; [|discriminate]. inversion H. subst.
-  exists (SExpr (set_value (VStr (indent tab dtext ++ tab)))), (description_assign desc), (map fst ps), b,
+  exists (SExpr (set_value (VStr (indent tab dtext ++ tab)))), (description_assign desc), ps, b,
          (spliced ++ ret), (Some n), ftype.
   split; [assumption|]. split; [assumption|]. split; [assumption|].
   split; [unfold argparse_tail; rewrite Hsp; cbn; rewrite Hret; reflexivity|].
-  split; [rewrite map_length; eapply map_outcome_length; eauto|].
+  split; [eapply map_outcome_length; eauto|].
   now rewrite app_assoc.
 Qed.
 
@@ -276,7 +276,7 @@ Proof.
   - left. split; [reflexivity|].
     cbn [od_keys map fst] in H.
     apply bind_Ok in H. destruct H as [ib [Hib H]]. injection Hib as Hib. subst ib.
-    apply bind_Ok in H. destruct H as [[text i2'] [Htds H]].
+    apply bind_Ok in H. destruct H as [text [Htds H]].
     apply bind_Ok in H. destruct H as [meth [Hm H]]. injection Hm as Hm. subst meth.
     apply bind_Ok in H. destruct H as [attrs [Ha H]]. inversion H. subst.
     right. apply in_or_app. right. now left.
@@ -285,7 +285,7 @@ Proof.
     apply bind_Ok in H. destruct H as [ib [Hib H]].
     apply bind_Ok in Hib. destruct Hib as [b' [Hrw Hib]]. inversion Hib. subst ib.
     exists b'. split; [exact Hrw|].
-    apply bind_Ok in H. destruct H as [[text i2'] [Htds H]].
+    apply bind_Ok in H. destruct H as [text [Htds H]].
     apply bind_Ok in H. destruct H as [meth [Hm H]].
     assert (Hmeth : meth = [call_meth b']).
     { unfold rewrite_body in Hrw. destruct (forallb _ _); [|discriminate]. inversion Hrw. subst b'.
